@@ -808,6 +808,27 @@ func (fc *funcContext) translateAssign(lhs, rhs ast.Expr, define bool) string {
 
 func (fc *funcContext) translateResults(results []ast.Expr) string {
 	tuple := fc.typeResolver.Substitute(fc.sig.Sig.Results()).(*types.Tuple)
+
+	// snapshot makes the returned array or struct value independent of its source when
+	// deferred calls will still run after the result was evaluated: Go copies the value at
+	// the return statement, so a deferred function mutating the source must not be seen by
+	// the caller. (Named results are re-read after the deferred calls instead.)
+	snapshot := func(result ast.Expr, t types.Type, v string) string {
+		if !fc.HasDefer || fc.resultNames != nil || results == nil {
+			return v
+		}
+		switch t.Underlying().(type) {
+		case *types.Struct, *types.Array:
+		default:
+			return v
+		}
+		switch astutil.RemoveParens(result).(type) {
+		case *ast.CompositeLit, *ast.CallExpr:
+			return v // already a fresh value
+		}
+		return fmt.Sprintf("$clone(%s, %s)", v, fc.typeName(t))
+	}
+
 	switch tuple.Len() {
 	case 0:
 		return ""
@@ -818,7 +839,7 @@ func (fc *funcContext) translateResults(results []ast.Expr) string {
 		}
 		v := fc.translateImplicitConversion(result, tuple.At(0).Type())
 		fc.delayedOutput = nil
-		return " " + v.String()
+		return " " + snapshot(result, tuple.At(0).Type(), v.String())
 	default:
 		if len(results) == 1 {
 			resultTuple := fc.typeOf(results[0]).(*types.Tuple)
@@ -848,7 +869,7 @@ func (fc *funcContext) translateResults(results []ast.Expr) string {
 			if results != nil {
 				result = results[i]
 			}
-			values[i] = fc.translateImplicitConversion(result, tuple.At(i).Type()).String()
+			values[i] = snapshot(result, tuple.At(i).Type(), fc.translateImplicitConversion(result, tuple.At(i).Type()).String())
 		}
 		fc.delayedOutput = nil
 		return " [" + strings.Join(values, ", ") + "]"
